@@ -105,9 +105,23 @@ def handle (j : Json) : Except String Json := do
     pure (Json.mkObj [("keys", Json.arr (ks.map fun k => jl [k.1, k.2.1, k.2.2]).toArray)])
   | "save" =>
     let v ← vtfOf (← j.getObjVal? "vtf")
-    match saveFile v (← nat j "minor") (← nat j "sheetver") (← j.getObjValAs? Bool "asw") with
+    let ops ← (match j.getObjVal? "ops" with
+      | .ok o => do
+        let arr ← o.getArr?
+        arr.toList.mapM fun e => do
+          let l ← Wire.natList e
+          pure (l.getD 0 0, l.getD 1 0)
+      | .error _ => pure [])
+    let minor ← nat j "minor"
+    let sv ← nat j "sheetver"
+    let asw ← j.getObjValAs? Bool "asw"
+    match (applyOps v ops >>= fun v' => saveFile v' minor sv asw) with
     | .ok bs => pure (Json.mkObj [("bytes", jl bs)])
     | .error e => pure (errJson e)
+  | "fsize" =>
+    pure (Json.mkObj [("n", jn (frameSize (fmtOf (← nat j "fmt")) (← nat j "w") (← nat j "h")))])
+  | "rescale_ok" =>
+    pure (Json.mkObj [("ok", Json.bool (rescaleOK (← nat j "w") (← nat j "h") (← nat j "lw") (← nat j "lh")))])
   | "read" =>
     let l ← nats j "bytes"
     match readFile l with
@@ -115,9 +129,12 @@ def handle (j : Json) : Except String Json := do
     | .ok v =>
       let bs := l.toArray
       let frames := Json.arr (v.frames.map fun (k, w, h, off) =>
-        Json.mkObj [("key", jl [k.1, k.2.1, k.2.2]), ("w", jn w), ("h", jn h), ("off", jn off),
-                    ("px", pxJson (decodeAt bs v.fmt w h off))]).toArray
-      let low := match v.lowOff with
+        Json.mkObj [("key", jl [k.1, k.2.1, k.2.2]), ("w", jn w), ("h", jn h),
+                    ("off", if v.headerOnly then Json.null else jn off),
+                    ("px", if v.headerOnly then jl (blank w h) else pxJson (decodeAt bs v.fmt w h off))]).toArray
+      let low := if v.headerOnly ∧ v.lowFmt ≠ fmtNone then
+          Json.mkObj [("off", Json.null), ("px", jl (blank v.lowW v.lowH))]
+        else match v.lowOff with
         | some o => Json.mkObj [("off", jn o), ("px", pxJson (decodeAt bs v.lowFmt v.lowW v.lowH o))]
         | none => Json.null
       pure (Json.mkObj [
